@@ -58,8 +58,12 @@ CLAIMED = {
              'irrelevant), Skeleton round trip, plain->time-series conversion succeeds iff every name parses and no directed '
              'edge runs against time and then preserves identifiers, variable and edge types, user metadata minus the two '
              'reserved keys, every time-respecting edge unchanged (others swapped); time-series->plain preserves everything; '
-             'from_causal_graph. Enum texts are proved equal to a table regenerated from type_definitions.py each run.',
-        note=_COMMON_NOTE + 'json itself is trusted; metadata values are opaque canonical JSON texts in the model. The extra hypothesis '
+             'from_causal_graph. Enum texts are proved equal to a table regenerated from type_definitions.py each run. The JSON '
+             'text layer: json.loads(json.dumps(v)) = v for every tree of str / int / bool / None / list / dict, also with '
+             'sort_keys and other separators, dumps injective, strict error cases (transcription of CPython json, proved).',
+        note=_COMMON_NOTE + 'CPython json (encoder, decoder, scanner) is transcribed (CG.PyJson) and proved to round-trip on every '
+                            'float-free tree (CG.C05Json.loads_dumps, 31 audited theorems); it is compared with the real json on every '
+                            'dictionary of the lane; metadata values are opaque canonical JSON texts in the graph model. The extra hypothesis '
                             'PlainNorm is discharged for every reachable state (plainNorm_run, fromDict_toDict_run).'),
     'C07': dict(
         technique='Lean 4 proof (__eq__ transcribed incl. the raising reversed-pair fallback; characterised as a structural '
